@@ -411,6 +411,7 @@ fn run_raw(c: &RawCase) -> CaseResult {
         let mut manager_closed: BTreeMap<usize, u32> = BTreeMap::new();
         let mut closed_with_shutdown = false;
         let mut blocked = false;
+        let mut closed_while_full = false;
         for op in &c.ops {
             match op {
                 RawOp::Establish { peer } => {
@@ -448,6 +449,16 @@ fn run_raw(c: &RawCase) -> CaseResult {
                     }
                     for (_, cid) in fx.manager_closed() {
                         *manager_closed.entry(cid).or_default() += 1;
+                    }
+                    if blocked {
+                        // the report is stuck behind a full protocol channel: protocols come before the manager, so the
+                        // manager cannot have been told yet
+                        closed_while_full = true;
+                        ensure!(
+                            !manager_closed.contains_key(&id),
+                            "C07/manager-told-before-a-protocol-whose-channel-is-full",
+                            "conn {id}: the report of its closure is waiting for room in a protocol's event channel, but the manager has already been told"
+                        );
                     }
                     if !blocked {
                         ensure!(manager_closed.get(&id) == Some(&1), "C07/manager-not-told-exactly-once", "conn {id}: {:?}", manager_closed.get(&id));
@@ -499,7 +510,7 @@ fn run_raw(c: &RawCase) -> CaseResult {
                 }
             }
         }
-        Ok(CaseOk::trivial().nt(closed_with_shutdown).class_if(closed_with_shutdown, "closed-while-a-protocol-channel-is-closed").class_if(blocked, "stopped-at-full-channel"))
+        Ok(CaseOk::trivial().nt(closed_with_shutdown).class_if(closed_with_shutdown, "closed-while-a-protocol-channel-is-closed").class_if(blocked, "stopped-at-full-channel").class_if(closed_while_full, "closed-while-a-protocol-channel-is-full").nt(closed_while_full))
     })
 }
 
